@@ -135,7 +135,9 @@ PROPS['C20'] = {
 PROPS['C16'] = {
     'level': 'exploration',
     'passes': [{'variant': 'asan', 'binary': 'thread', 'runs': [8000, 300000], 'deadline_s': [120, 2400], 'tag': 'asan'},
-               {'variant': 'tsan', 'binary': 'thread', 'runs': [4000, 150000], 'deadline_s': [120, 2400], 'tag': 'tsan'}],
+               {'variant': 'tsan', 'binary': 'thread', 'runs': [4000, 150000], 'deadline_s': [120, 2400], 'tag': 'tsan',
+                # lazily initialised process-wide state is cold only once per process: a fresh (forked) process every 20 runs
+                'extra': ['--fresh-every', '20']}],
     'crash_property': 'C16',
     'recheck': 40,
     'rule': ("one evaluation = one seeded scene of 2-4 (thorough: -6) real pthreads, each with an explicit list of 10-25 (-40) operations (composites through fast paths and the general "
